@@ -60,6 +60,9 @@ var methods = []string{"ping", "find_node", "get_peers", "announce_peer", "get",
 func (sc *srvScen) randT() []byte {
 	r := sc.r.rng
 	n := []int{0, 1, 2, 2, 2, 4, 8, 20, 40}[r.Intn(9)]
+	if r.Intn(40) == 0 {
+		n = []int{1400, 2047, 2048, 2500, 9000, 30000}[r.Intn(6)] // "any length": also longer than a typical MTU
+	}
 	t := make([]byte, n)
 	r.Read(t)
 	if n > 0 && r.Intn(4) == 0 {
